@@ -637,6 +637,17 @@ static long seek_common(int fd, long off, int whence, int wide)
 off_t lseek(int fd, off_t off, int whence) { return (off_t)seek_common(fd, (long)off, whence, 0); }
 off64_t lseek64(int fd, off64_t off, int whence) { return (off64_t)seek_common(fd, (long)off, whence, 1); }
 
+/* The thread id a panic message quotes belongs to the OS; its number of digits changes the length of the message and, under a
+ * short-write rule, the number of write calls.  Threads are numbered in the order in which they first ask. */
+static int tid_next = 40000;
+static __thread int tid_mine;
+
+pid_t gettid(void)
+{
+    if (!tid_mine) tid_mine = __sync_add_and_fetch(&tid_next, 1);
+    return tid_mine;
+}
+
 int clock_gettime(clockid_t id, struct timespec *ts)
 {
     init();
